@@ -87,6 +87,9 @@ func c01Nontrivial(st *gen.DocStats, want *ref.Result) (bool, []string) {
 		if st.DupKeys > 0 {
 			cls = append(cls, "dup_response_key")
 		}
+		if st.Reentries > 0 {
+			cls = append(cls, "field_leading_back_into_its_own_fragment")
+		}
 		if st.MultiSpread > 0 {
 			cls = append(cls, "fragment_spread_twice")
 		}
